@@ -239,7 +239,7 @@ theorem vl_params : Progs.validate_PostProcessProperties.params = ["properties",
 open Lean.Parser.Tactic in
 macro "vl_simp" "[" ts:simpLemma,* "]" : tactic =>
   `(tactic| go_simp [vlBody, Progs.validate_PostProcessProperties, VP, validPrims, validFn_cfgType, validFn_argValidate,
-      validFn_rPointer, validFn_rStruct, validFn_PropertyType, validFn_Args, validFn_Find, validFn_Type, validFn_Kind,
+      validFn_rPointer, validFn_rStruct, validFn_timeType, validFn_Conv, validFn_ConvElem, validFn_PropertyType, validFn_Args, validFn_Find, validFn_Type, validFn_Kind,
       validFn_Elem, validFn_KindElem, validFn_Value, validFn_IsNil, validFn_CanInterface, validFn_Interface, validFn_Struct,
       validFn_Var, validFn_Join, validFn_Wrapf, strsOf_map, envS, nodeStep, validateNode, encErr, stageRet, $ts,*])
 
@@ -260,33 +260,285 @@ theorem vl_iter (n i k : Nat) (w : SW) :
       · vl_simp [hcf, hv]
       · simp [nodeStep, validateNode, hcf, hv, stageRet]
     | some ts =>
-      cases hp : (spropAt props k).isPtr <;> cases hn : (spropAt props k).isNil <;>
-      cases hs : (spropAt props k).isStruct <;> cases hi : (spropAt props k).canIface
-      all_goals first
-        | (cases hS : vS k with
-           | none =>
-             refine ⟨.norm, ?_, Or.inl ⟨?_, Or.inl rfl⟩⟩
-             · vl_simp [hcf, hv, hp, hn, hs, hi, hS]
-             · simp [nodeStep, validateNode, hcf, hv, hp, hn, hs, hi, hS, stageRet]
-           | some e =>
-             refine ⟨.ret (.tuple [.nil, .str e]), ?_, Or.inr ⟨_, ?_, rfl⟩⟩
-             · vl_simp [hcf, hv, hp, hn, hs, hi, hS]
-             · simp [nodeStep, validateNode, hcf, hv, hp, hn, hs, hi, hS, stageRet])
-        | (cases hV : vV k (",".intercalate ts) with
-           | none =>
-             refine ⟨.norm, ?_, Or.inl ⟨?_, Or.inl rfl⟩⟩
-             · vl_simp [hcf, hv, hp, hn, hs, hi, hV]
-             · simp [nodeStep, validateNode, hcf, hv, hp, hn, hs, hi, hV, stageRet]
-           | some e =>
-             refine ⟨.ret (.tuple [.nil, .str e]), ?_, Or.inr ⟨_, ?_, rfl⟩⟩
-             · vl_simp [hcf, hv, hp, hn, hs, hi, hV]
-             · simp [nodeStep, validateNode, hcf, hv, hp, hn, hs, hi, hV, stageRet])
-        | (refine ⟨.cont, ?_, Or.inl ⟨?_, Or.inr rfl⟩⟩
-           · vl_simp [hcf, hv, hp, hn, hs, hi]
-           · simp [nodeStep, validateNode, hcf, hv, hp, hn, hs, hi, stageRet])
-        | (refine ⟨.norm, ?_, Or.inl ⟨?_, Or.inl rfl⟩⟩
-           · vl_simp [hcf, hv, hp, hn, hs, hi]
-           · simp [nodeStep, validateNode, hcf, hv, hp, hn, hs, hi, stageRet])
+      cases hp : (spropAt props k).isPtr with
+      | false =>
+        cases hn : (spropAt props k).isNil with
+        | false =>
+          cases hs : (spropAt props k).isStruct with
+          | false =>
+            cases ht : (spropAt props k).isTime with
+            | false =>
+              cases hi : (spropAt props k).canIface with
+              | false =>
+                refine ⟨.norm, ?_, Or.inl ⟨?_, Or.inl rfl⟩⟩
+                · vl_simp [hcf, hv, hp, hn, hs, ht, hi]
+                · simp [nodeStep, validateNode, hcf, hv, hp, hn, hs, ht, hi, stageRet]
+              | true =>
+                cases hV : vV k (",".intercalate ts) with
+                | none =>
+                  refine ⟨.norm, ?_, Or.inl ⟨?_, Or.inl rfl⟩⟩
+                  · vl_simp [hcf, hv, hp, hn, hs, ht, hi, hV]
+                  · simp [nodeStep, validateNode, hcf, hv, hp, hn, hs, ht, hi, hV, stageRet]
+                | some e =>
+                  refine ⟨.ret (.tuple [.nil, .str e]), ?_, Or.inr ⟨_, ?_, rfl⟩⟩
+                  · vl_simp [hcf, hv, hp, hn, hs, ht, hi, hV]
+                  · simp [nodeStep, validateNode, hcf, hv, hp, hn, hs, ht, hi, hV, stageRet]
+            | true =>
+              cases hi : (spropAt props k).canIface with
+              | false =>
+                refine ⟨.norm, ?_, Or.inl ⟨?_, Or.inl rfl⟩⟩
+                · vl_simp [hcf, hv, hp, hn, hs, ht, hi]
+                · simp [nodeStep, validateNode, hcf, hv, hp, hn, hs, ht, hi, stageRet]
+              | true =>
+                cases hV : vV k (",".intercalate ts) with
+                | none =>
+                  refine ⟨.norm, ?_, Or.inl ⟨?_, Or.inl rfl⟩⟩
+                  · vl_simp [hcf, hv, hp, hn, hs, ht, hi, hV]
+                  · simp [nodeStep, validateNode, hcf, hv, hp, hn, hs, ht, hi, hV, stageRet]
+                | some e =>
+                  refine ⟨.ret (.tuple [.nil, .str e]), ?_, Or.inr ⟨_, ?_, rfl⟩⟩
+                  · vl_simp [hcf, hv, hp, hn, hs, ht, hi, hV]
+                  · simp [nodeStep, validateNode, hcf, hv, hp, hn, hs, ht, hi, hV, stageRet]
+          | true =>
+            cases ht : (spropAt props k).isTime with
+            | false =>
+              cases hi : (spropAt props k).canIface with
+              | false =>
+                cases hS : vS k with
+                | none =>
+                  refine ⟨.norm, ?_, Or.inl ⟨?_, Or.inl rfl⟩⟩
+                  · vl_simp [hcf, hv, hp, hn, hs, ht, hi, hS]
+                  · simp [nodeStep, validateNode, hcf, hv, hp, hn, hs, ht, hi, hS, stageRet]
+                | some e =>
+                  refine ⟨.ret (.tuple [.nil, .str e]), ?_, Or.inr ⟨_, ?_, rfl⟩⟩
+                  · vl_simp [hcf, hv, hp, hn, hs, ht, hi, hS]
+                  · simp [nodeStep, validateNode, hcf, hv, hp, hn, hs, ht, hi, hS, stageRet]
+              | true =>
+                cases hS : vS k with
+                | none =>
+                  refine ⟨.norm, ?_, Or.inl ⟨?_, Or.inl rfl⟩⟩
+                  · vl_simp [hcf, hv, hp, hn, hs, ht, hi, hS]
+                  · simp [nodeStep, validateNode, hcf, hv, hp, hn, hs, ht, hi, hS, stageRet]
+                | some e =>
+                  refine ⟨.ret (.tuple [.nil, .str e]), ?_, Or.inr ⟨_, ?_, rfl⟩⟩
+                  · vl_simp [hcf, hv, hp, hn, hs, ht, hi, hS]
+                  · simp [nodeStep, validateNode, hcf, hv, hp, hn, hs, ht, hi, hS, stageRet]
+            | true =>
+              cases hi : (spropAt props k).canIface with
+              | false =>
+                refine ⟨.norm, ?_, Or.inl ⟨?_, Or.inl rfl⟩⟩
+                · vl_simp [hcf, hv, hp, hn, hs, ht, hi]
+                · simp [nodeStep, validateNode, hcf, hv, hp, hn, hs, ht, hi, stageRet]
+              | true =>
+                cases hV : vV k (",".intercalate ts) with
+                | none =>
+                  refine ⟨.norm, ?_, Or.inl ⟨?_, Or.inl rfl⟩⟩
+                  · vl_simp [hcf, hv, hp, hn, hs, ht, hi, hV]
+                  · simp [nodeStep, validateNode, hcf, hv, hp, hn, hs, ht, hi, hV, stageRet]
+                | some e =>
+                  refine ⟨.ret (.tuple [.nil, .str e]), ?_, Or.inr ⟨_, ?_, rfl⟩⟩
+                  · vl_simp [hcf, hv, hp, hn, hs, ht, hi, hV]
+                  · simp [nodeStep, validateNode, hcf, hv, hp, hn, hs, ht, hi, hV, stageRet]
+        | true =>
+          cases hs : (spropAt props k).isStruct with
+          | false =>
+            cases ht : (spropAt props k).isTime with
+            | false =>
+              cases hi : (spropAt props k).canIface with
+              | false =>
+                refine ⟨.norm, ?_, Or.inl ⟨?_, Or.inl rfl⟩⟩
+                · vl_simp [hcf, hv, hp, hn, hs, ht, hi]
+                · simp [nodeStep, validateNode, hcf, hv, hp, hn, hs, ht, hi, stageRet]
+              | true =>
+                cases hV : vV k (",".intercalate ts) with
+                | none =>
+                  refine ⟨.norm, ?_, Or.inl ⟨?_, Or.inl rfl⟩⟩
+                  · vl_simp [hcf, hv, hp, hn, hs, ht, hi, hV]
+                  · simp [nodeStep, validateNode, hcf, hv, hp, hn, hs, ht, hi, hV, stageRet]
+                | some e =>
+                  refine ⟨.ret (.tuple [.nil, .str e]), ?_, Or.inr ⟨_, ?_, rfl⟩⟩
+                  · vl_simp [hcf, hv, hp, hn, hs, ht, hi, hV]
+                  · simp [nodeStep, validateNode, hcf, hv, hp, hn, hs, ht, hi, hV, stageRet]
+            | true =>
+              cases hi : (spropAt props k).canIface with
+              | false =>
+                refine ⟨.norm, ?_, Or.inl ⟨?_, Or.inl rfl⟩⟩
+                · vl_simp [hcf, hv, hp, hn, hs, ht, hi]
+                · simp [nodeStep, validateNode, hcf, hv, hp, hn, hs, ht, hi, stageRet]
+              | true =>
+                cases hV : vV k (",".intercalate ts) with
+                | none =>
+                  refine ⟨.norm, ?_, Or.inl ⟨?_, Or.inl rfl⟩⟩
+                  · vl_simp [hcf, hv, hp, hn, hs, ht, hi, hV]
+                  · simp [nodeStep, validateNode, hcf, hv, hp, hn, hs, ht, hi, hV, stageRet]
+                | some e =>
+                  refine ⟨.ret (.tuple [.nil, .str e]), ?_, Or.inr ⟨_, ?_, rfl⟩⟩
+                  · vl_simp [hcf, hv, hp, hn, hs, ht, hi, hV]
+                  · simp [nodeStep, validateNode, hcf, hv, hp, hn, hs, ht, hi, hV, stageRet]
+          | true =>
+            cases ht : (spropAt props k).isTime with
+            | false =>
+              cases hi : (spropAt props k).canIface with
+              | false =>
+                cases hS : vS k with
+                | none =>
+                  refine ⟨.norm, ?_, Or.inl ⟨?_, Or.inl rfl⟩⟩
+                  · vl_simp [hcf, hv, hp, hn, hs, ht, hi, hS]
+                  · simp [nodeStep, validateNode, hcf, hv, hp, hn, hs, ht, hi, hS, stageRet]
+                | some e =>
+                  refine ⟨.ret (.tuple [.nil, .str e]), ?_, Or.inr ⟨_, ?_, rfl⟩⟩
+                  · vl_simp [hcf, hv, hp, hn, hs, ht, hi, hS]
+                  · simp [nodeStep, validateNode, hcf, hv, hp, hn, hs, ht, hi, hS, stageRet]
+              | true =>
+                cases hS : vS k with
+                | none =>
+                  refine ⟨.norm, ?_, Or.inl ⟨?_, Or.inl rfl⟩⟩
+                  · vl_simp [hcf, hv, hp, hn, hs, ht, hi, hS]
+                  · simp [nodeStep, validateNode, hcf, hv, hp, hn, hs, ht, hi, hS, stageRet]
+                | some e =>
+                  refine ⟨.ret (.tuple [.nil, .str e]), ?_, Or.inr ⟨_, ?_, rfl⟩⟩
+                  · vl_simp [hcf, hv, hp, hn, hs, ht, hi, hS]
+                  · simp [nodeStep, validateNode, hcf, hv, hp, hn, hs, ht, hi, hS, stageRet]
+            | true =>
+              cases hi : (spropAt props k).canIface with
+              | false =>
+                refine ⟨.norm, ?_, Or.inl ⟨?_, Or.inl rfl⟩⟩
+                · vl_simp [hcf, hv, hp, hn, hs, ht, hi]
+                · simp [nodeStep, validateNode, hcf, hv, hp, hn, hs, ht, hi, stageRet]
+              | true =>
+                cases hV : vV k (",".intercalate ts) with
+                | none =>
+                  refine ⟨.norm, ?_, Or.inl ⟨?_, Or.inl rfl⟩⟩
+                  · vl_simp [hcf, hv, hp, hn, hs, ht, hi, hV]
+                  · simp [nodeStep, validateNode, hcf, hv, hp, hn, hs, ht, hi, hV, stageRet]
+                | some e =>
+                  refine ⟨.ret (.tuple [.nil, .str e]), ?_, Or.inr ⟨_, ?_, rfl⟩⟩
+                  · vl_simp [hcf, hv, hp, hn, hs, ht, hi, hV]
+                  · simp [nodeStep, validateNode, hcf, hv, hp, hn, hs, ht, hi, hV, stageRet]
+      | true =>
+        cases hn : (spropAt props k).isNil with
+        | false =>
+          cases hs : (spropAt props k).isStruct with
+          | false =>
+            cases ht : (spropAt props k).isTime with
+            | false =>
+              cases hi : (spropAt props k).canIface with
+              | false =>
+                refine ⟨.norm, ?_, Or.inl ⟨?_, Or.inl rfl⟩⟩
+                · vl_simp [hcf, hv, hp, hn, hs, ht, hi]
+                · simp [nodeStep, validateNode, hcf, hv, hp, hn, hs, ht, hi, stageRet]
+              | true =>
+                cases hV : vV k (",".intercalate ts) with
+                | none =>
+                  refine ⟨.norm, ?_, Or.inl ⟨?_, Or.inl rfl⟩⟩
+                  · vl_simp [hcf, hv, hp, hn, hs, ht, hi, hV]
+                  · simp [nodeStep, validateNode, hcf, hv, hp, hn, hs, ht, hi, hV, stageRet]
+                | some e =>
+                  refine ⟨.ret (.tuple [.nil, .str e]), ?_, Or.inr ⟨_, ?_, rfl⟩⟩
+                  · vl_simp [hcf, hv, hp, hn, hs, ht, hi, hV]
+                  · simp [nodeStep, validateNode, hcf, hv, hp, hn, hs, ht, hi, hV, stageRet]
+            | true =>
+              cases hi : (spropAt props k).canIface with
+              | false =>
+                refine ⟨.norm, ?_, Or.inl ⟨?_, Or.inl rfl⟩⟩
+                · vl_simp [hcf, hv, hp, hn, hs, ht, hi]
+                · simp [nodeStep, validateNode, hcf, hv, hp, hn, hs, ht, hi, stageRet]
+              | true =>
+                cases hV : vV k (",".intercalate ts) with
+                | none =>
+                  refine ⟨.norm, ?_, Or.inl ⟨?_, Or.inl rfl⟩⟩
+                  · vl_simp [hcf, hv, hp, hn, hs, ht, hi, hV]
+                  · simp [nodeStep, validateNode, hcf, hv, hp, hn, hs, ht, hi, hV, stageRet]
+                | some e =>
+                  refine ⟨.ret (.tuple [.nil, .str e]), ?_, Or.inr ⟨_, ?_, rfl⟩⟩
+                  · vl_simp [hcf, hv, hp, hn, hs, ht, hi, hV]
+                  · simp [nodeStep, validateNode, hcf, hv, hp, hn, hs, ht, hi, hV, stageRet]
+          | true =>
+            cases ht : (spropAt props k).isTime with
+            | false =>
+              cases hi : (spropAt props k).canIface with
+              | false =>
+                cases hS : vS k with
+                | none =>
+                  refine ⟨.norm, ?_, Or.inl ⟨?_, Or.inl rfl⟩⟩
+                  · vl_simp [hcf, hv, hp, hn, hs, ht, hi, hS]
+                  · simp [nodeStep, validateNode, hcf, hv, hp, hn, hs, ht, hi, hS, stageRet]
+                | some e =>
+                  refine ⟨.ret (.tuple [.nil, .str e]), ?_, Or.inr ⟨_, ?_, rfl⟩⟩
+                  · vl_simp [hcf, hv, hp, hn, hs, ht, hi, hS]
+                  · simp [nodeStep, validateNode, hcf, hv, hp, hn, hs, ht, hi, hS, stageRet]
+              | true =>
+                cases hS : vS k with
+                | none =>
+                  refine ⟨.norm, ?_, Or.inl ⟨?_, Or.inl rfl⟩⟩
+                  · vl_simp [hcf, hv, hp, hn, hs, ht, hi, hS]
+                  · simp [nodeStep, validateNode, hcf, hv, hp, hn, hs, ht, hi, hS, stageRet]
+                | some e =>
+                  refine ⟨.ret (.tuple [.nil, .str e]), ?_, Or.inr ⟨_, ?_, rfl⟩⟩
+                  · vl_simp [hcf, hv, hp, hn, hs, ht, hi, hS]
+                  · simp [nodeStep, validateNode, hcf, hv, hp, hn, hs, ht, hi, hS, stageRet]
+            | true =>
+              cases hi : (spropAt props k).canIface with
+              | false =>
+                refine ⟨.norm, ?_, Or.inl ⟨?_, Or.inl rfl⟩⟩
+                · vl_simp [hcf, hv, hp, hn, hs, ht, hi]
+                · simp [nodeStep, validateNode, hcf, hv, hp, hn, hs, ht, hi, stageRet]
+              | true =>
+                cases hV : vV k (",".intercalate ts) with
+                | none =>
+                  refine ⟨.norm, ?_, Or.inl ⟨?_, Or.inl rfl⟩⟩
+                  · vl_simp [hcf, hv, hp, hn, hs, ht, hi, hV]
+                  · simp [nodeStep, validateNode, hcf, hv, hp, hn, hs, ht, hi, hV, stageRet]
+                | some e =>
+                  refine ⟨.ret (.tuple [.nil, .str e]), ?_, Or.inr ⟨_, ?_, rfl⟩⟩
+                  · vl_simp [hcf, hv, hp, hn, hs, ht, hi, hV]
+                  · simp [nodeStep, validateNode, hcf, hv, hp, hn, hs, ht, hi, hV, stageRet]
+        | true =>
+          cases hs : (spropAt props k).isStruct with
+          | false =>
+            cases ht : (spropAt props k).isTime with
+            | false =>
+              cases hi : (spropAt props k).canIface with
+              | false =>
+                refine ⟨.cont, ?_, Or.inl ⟨?_, Or.inr rfl⟩⟩
+                · vl_simp [hcf, hv, hp, hn, hs, ht, hi]
+                · simp [nodeStep, validateNode, hcf, hv, hp, hn, hs, ht, hi, stageRet]
+              | true =>
+                refine ⟨.cont, ?_, Or.inl ⟨?_, Or.inr rfl⟩⟩
+                · vl_simp [hcf, hv, hp, hn, hs, ht, hi]
+                · simp [nodeStep, validateNode, hcf, hv, hp, hn, hs, ht, hi, stageRet]
+            | true =>
+              cases hi : (spropAt props k).canIface with
+              | false =>
+                refine ⟨.cont, ?_, Or.inl ⟨?_, Or.inr rfl⟩⟩
+                · vl_simp [hcf, hv, hp, hn, hs, ht, hi]
+                · simp [nodeStep, validateNode, hcf, hv, hp, hn, hs, ht, hi, stageRet]
+              | true =>
+                refine ⟨.cont, ?_, Or.inl ⟨?_, Or.inr rfl⟩⟩
+                · vl_simp [hcf, hv, hp, hn, hs, ht, hi]
+                · simp [nodeStep, validateNode, hcf, hv, hp, hn, hs, ht, hi, stageRet]
+          | true =>
+            cases ht : (spropAt props k).isTime with
+            | false =>
+              cases hi : (spropAt props k).canIface with
+              | false =>
+                refine ⟨.cont, ?_, Or.inl ⟨?_, Or.inr rfl⟩⟩
+                · vl_simp [hcf, hv, hp, hn, hs, ht, hi]
+                · simp [nodeStep, validateNode, hcf, hv, hp, hn, hs, ht, hi, stageRet]
+              | true =>
+                refine ⟨.cont, ?_, Or.inl ⟨?_, Or.inr rfl⟩⟩
+                · vl_simp [hcf, hv, hp, hn, hs, ht, hi]
+                · simp [nodeStep, validateNode, hcf, hv, hp, hn, hs, ht, hi, stageRet]
+            | true =>
+              cases hi : (spropAt props k).canIface with
+              | false =>
+                refine ⟨.cont, ?_, Or.inl ⟨?_, Or.inr rfl⟩⟩
+                · vl_simp [hcf, hv, hp, hn, hs, ht, hi]
+                · simp [nodeStep, validateNode, hcf, hv, hp, hn, hs, ht, hi, stageRet]
+              | true =>
+                refine ⟨.cont, ?_, Or.inl ⟨?_, Or.inr rfl⟩⟩
+                · vl_simp [hcf, hv, hp, hn, hs, ht, hi]
+                · simp [nodeStep, validateNode, hcf, hv, hp, hn, hs, ht, hi, stageRet]
 
 /-- validateAwarePostProcessors.PostProcessProperties, regenerated -/
 theorem validate_sem (n : Nat) (w : SW) :
@@ -309,7 +561,7 @@ theorem validateNode_decision (i : Nat) (w : SW) :
   | none => simp
   | some ts =>
     cases hp : (spropAt props i).isPtr <;> cases hn : (spropAt props i).isNil <;> cases hs : (spropAt props i).isStruct <;>
-      cases hi : (spropAt props i).canIface <;> simp <;>
+      cases ht : (spropAt props i).isTime <;> cases hi : (spropAt props i).canIface <;> simp <;>
       first
         | (cases vS i <;> simp)
         | (cases vV i (",".intercalate ts) <;> simp)
